@@ -23,6 +23,7 @@ Part 4: the volatile registry (ForML.Model.RegistryVolatile): listing in memory,
 -/
 import ForML.Lemmas.C05Volatile
 import ForML.Lemmas.C05States
+import ForML.Lemmas.C05Rmtree
 
 namespace ForML.Registry
 open ForML.Fs
@@ -948,5 +949,69 @@ example : let o := vExec Impl.repaired (vExec Impl.repaired VReg.empty (.publish
     o.err = none ∧ o.calls = [[.mkdir (projectP 0), .mkdir (releaseP 0 1), .mkdir (generationP 0 1 1),
       .createEmpty (tagTmpP 0 1 1), .append (tagTmpP 0 1 1) (encodeTag ⟨7, []⟩), .rename (tagTmpP 0 1 1) (tagP 0 1 1)]]
     ∧ vGenListed o.st 0 1 1 = true := by decide +kernel
+
+/-! ### Round 5: crash points INSIDE `shutil.rmtree` of the left-over temporary package (`Fs.runUnlinks`) -/
+
+/-- **C05_rmtree_partial_invisible**: `Registry.push` starts a directory publish with
+`shutil.rmtree(staged, ignore_errors=True)`; split into its `os.unlink` / `os.rmdir` calls (files and empty
+directories at or below the temporary package name, in any order) and killed after ANY number of them, it leaves a
+well-formed tree that equals the previous one everywhere outside the temporary name and shows a fresh reader exactly
+the previous view - for every tree, not only the reachable ones. -/
+theorem C05_rmtree_partial_invisible (fs fs' : Fs) (p v : Nat) (ks : List Path)
+    (h : runUnlinks fs (packageTmpP p v) ks = some fs') :
+    ViewEq fs' fs ∧ (WF fs → WF fs') ∧ (∀ key, ¬ (packageTmpP p v <+: key) → get fs' key = get fs key) :=
+  ⟨vis_frame_tmp fs' fs p v (fun key hk => runUnlinks_frame _ key hk ks fs fs' h),
+   runUnlinks_wf _ ks fs fs' h,
+   fun key hk => runUnlinks_frame _ key hk ks fs fs' h⟩
+
+/-- **C05_rmtree_partial_resume**: the retried publish's `rmtree` of a partly removed left-over (the directory itself
+still there) produces exactly the tree the undisturbed `rmtree` would have produced, so everything proved about the
+one-step `rmtree` of `pushOps` (Parts 1-3) carries over to a retry after a death inside it; every entry of the
+partly removed tree is an entry of the tree before (nothing is created, nothing is rewritten). -/
+theorem C05_rmtree_partial_resume (fs fs' : Fs) (p v : Nat) (ks : List Path)
+    (h : runUnlinks fs (packageTmpP p v) ks = some fs') :
+    (get fs' (packageTmpP p v) = some .dir →
+      step fs' (.rmtree (packageTmpP p v)) = step fs (.rmtree (packageTmpP p v)))
+    ∧ (∀ key n, get fs' key = some n → get fs key = some n) :=
+  ⟨fun hd => rmtree_resume fs fs' _ ks h (by simp [packageTmpP]) hd,
+   fun key n hn => runUnlinks_sub _ key n ks fs fs' h hn⟩
+
+/-- **C05_rmtree_walk_complete**: a walk that has removed the temporary directory itself (its last `rmdir`, accepted
+only on an empty directory) has removed everything below it and nothing else: the tree IS the one of the one-step
+`rmtree` of the model, and no further call of the walk is accepted.  With `C05_rmtree_partial_invisible` / `_resume`:
+every crash point inside `shutil.rmtree` is either invisible and resumable or the completed `rmtree` step. -/
+theorem C05_rmtree_walk_complete (fs fs' : Fs) (p v : Nat) (ks : List Path)
+    (h : runUnlinks fs (packageTmpP p v) ks = some fs') (hd : get fs (packageTmpP p v) = some .dir)
+    (hn : get fs' (packageTmpP p v) = none) :
+    step fs (.rmtree (packageTmpP p v)) = some fs' ∧ ∀ k, unlinkStep fs' (packageTmpP p v) k = none := by
+  have e := runUnlinks_done _ ks fs fs' h hd hn
+  have hne : packageTmpP p v ≠ [] := by simp [packageTmpP]
+  refine ⟨by simp only [step, hd, e]; rw [if_pos ⟨hne, trivial⟩], fun k => ?_⟩
+  unfold unlinkStep
+  split
+  · rename_i c
+    have := c.2.1
+    rw [e, get_rmtree] at this
+    simp [c.1] at this
+  · rfl
+
+/-- non-vacuity of the completed walk: all three calls, bottom-up -/
+example : let fs : Fs := [(packageTmpP 0 1 ++ [.member 0], .file [1]), (packageTmpP 0 1, .dir), (packageP 0 1, .file [9]),
+      (releaseP 0 1, .dir), (projectP 0, .dir), ([], .dir)]
+    runUnlinks fs (packageTmpP 0 1) [packageTmpP 0 1 ++ [.member 0], packageTmpP 0 1] = step fs (.rmtree (packageTmpP 0 1))
+    ∧ get fs (packageTmpP 0 1) = some .dir := by decide
+
+/-- non-vacuity: a left-over with two members below a published release; two of its three unlinks done, the listed
+package is untouched, the retry's `rmtree` gives the same tree as on the intact left-over; `rmdir` of the non-empty
+directory and an unlink outside the temporary name are refused -/
+example : let fs : Fs := [(packageTmpP 0 1 ++ [.member 1], .file [2]), (packageTmpP 0 1 ++ [.member 0], .file [1]),
+      (packageTmpP 0 1, .dir), (packageP 0 1, .file [9]), (releaseP 0 1, .dir), (projectP 0, .dir), ([], .dir)]
+    (∃ fs', runUnlinks fs (packageTmpP 0 1) [packageTmpP 0 1 ++ [.member 0], packageTmpP 0 1 ++ [.member 1]] = some fs'
+      ∧ get fs' (packageTmpP 0 1) = some .dir ∧ get fs' (packageTmpP 0 1 ++ [.member 0]) = none
+      ∧ vis fs' (packageP 0 1) = some (.file [9])
+      ∧ step fs' (.rmtree (packageTmpP 0 1)) = step fs (.rmtree (packageTmpP 0 1)))
+    ∧ runUnlinks fs (packageTmpP 0 1) [packageTmpP 0 1] = none
+    ∧ runUnlinks fs (packageTmpP 0 1) [packageP 0 1] = none := by
+  refine ⟨⟨_, rfl, ?_⟩, ?_⟩ <;> decide
 
 end ForML.Registry
